@@ -152,7 +152,8 @@ func GaloisElementsForExpand(params ParameterProvider, logN int) (galEls []uint6
 	return
 }
 
-// GaloisElementsForPack returns the list of Galois elements required to perform the `Pack` operation.
+// GaloisElementsForPack returns the list of Galois elements required to perform the `Pack` operation
+// with `inputLogGap` = `logGap`.
 func GaloisElementsForPack(params ParameterProvider, logGap int) (galEls []uint64) {
 
 	p := params.GetRLWEParameters()
@@ -162,9 +163,11 @@ func GaloisElementsForPack(params ParameterProvider, logGap int) (galEls []uint6
 		panic(fmt.Errorf("cannot GaloisElementsForPack: logGap > logN || logGap < 0"))
 	}
 
+	// Pack merges the ciphertexts from the step LogN-logGap to the step LogN-1, the i-th step
+	// using X -> X^{5^{2^{i-1}}} (and X -> X^{-1} for the step i = 0, see below).
 	galEls = make([]uint64, 0, logGap)
-	for i := 0; i < logGap; i++ {
-		galEls = append(galEls, p.GaloisElement(1<<i))
+	for i := utils.Max(p.LogN()-logGap, 1); i < p.LogN(); i++ {
+		galEls = append(galEls, p.GaloisElement(1<<(i-1)))
 	}
 
 	switch p.RingType() {
